@@ -508,6 +508,10 @@ def run(chk, tier):
     check_draws(chk, tier)
     check_prompts(chk, tier)
 
+    # whole application sessions on the real App (harness/screen_check.py): the separator before every draw
+    # (acceptor chk_C17sep of ScreenMon.v) and a scan of everything written to the console, including re-printed prompts
+    import screen_check
+    screen_check.run(chk, tier, "C17")
 
 def replay(path):
     lib.use_repo()
